@@ -7,10 +7,11 @@ CONSTANTS Data,        \* payload byte alphabet
           Pids,        \* data_pid values
           MaxLen,      \* payload length bound
           MaxReq,      \* number of requests
-          MaxStall     \* consecutive tx_ready-low cycles
+          MaxStall,    \* consecutive tx_ready-low cycles
+          MaxResets    \* number of domain resets
 
-VARIABLE stall
-mcvars == <<vars, stall>>
+VARIABLES stall, nrst
+mcvars == <<vars, stall, nrst>>
 
 Rdys == IF stall < MaxStall THEN BOOLEAN ELSE {TRUE}
 
@@ -26,7 +27,8 @@ MCInputs ==
     ELSE IF req = "data" /\ ~fin THEN
         {[sv |-> TRUE, sf |-> FALSE, sl |-> l, sp |-> d, pid |-> rpid, rdy |-> r] :
              l \in (IF Len(offd) + 1 >= MaxLen THEN {TRUE} ELSE BOOLEAN), d \in Data, r \in Rdys}
-    ELSE {[sv |-> FALSE, sf |-> FALSE, sl |-> FALSE, sp |-> 0, pid |-> rpid, rdy |-> r] : r \in Rdys}
+    ELSE {[sv |-> FALSE, sf |-> FALSE, sl |-> FALSE, sp |-> 0, pid |-> p, rdy |-> r] :
+             p \in (IF out.tv /\ Len(wire) >= 1 THEN Pids ELSE {rpid}), r \in Rdys}
 
 \* the byte the frame has at wire position k, given that `sr` is this cycle's stream.ready
 RightTd(i, sr) ==
@@ -42,7 +44,7 @@ RightTd(i, sr) ==
 MCOutputs(i) == {[sr |-> s, tv |-> v, td |-> IF v /\ i.rdy THEN RightTd(i, s) ELSE 0] : s, v \in BOOLEAN}
 
 Do(i, o) == /\ Failing(i, o) = "ok" /\ Step(i, o)
-            /\ stall' = IF i.rdy THEN 0 ELSE stall + 1
+            /\ stall' = IF i.rdy THEN 0 ELSE stall + 1 /\ UNCHANGED nrst
 
 K(i) == Len(Wire0) + 1
 \* the step relation, split by the Ref branch taken (each must be covered)
@@ -55,8 +57,13 @@ PacketEnd   == \E i \in MCInputs : \E o \in MCOutputs(i) : BurstEnd(o) /\ Do(i, 
 Waiting     == \E i \in MCInputs : \E o \in MCOutputs(i) : ~o.tv /\ ~BurstEnd(o) /\ Req1(i) # "none" /\ Do(i, o)
 Idle        == \E i \in MCInputs : \E o \in MCOutputs(i) : ~o.tv /\ ~BurstEnd(o) /\ Req1(i) = "none" /\ Do(i, o)
 
-MCInit == Init /\ stall = 0
-MCNext == PidBeat \/ PayloadBeat \/ CrcLoBeat \/ CrcHiBeat \/ Stalled \/ PacketEnd \/ Waiting \/ Idle
+DomainReset == /\ nrst < MaxResets
+               /\ \E i \in {j \in MCInputs : ResetLegal(j)} : \E o \in MCOutputs(i) :
+                     Failing(i, o) = "ok" /\ ResetStep(i, o)
+               /\ nrst' = nrst + 1 /\ stall' = 0
+
+MCInit == Init /\ stall = 0 /\ nrst = 0
+MCNext == PidBeat \/ PayloadBeat \/ CrcLoBeat \/ CrcHiBeat \/ Stalled \/ PacketEnd \/ Waiting \/ Idle \/ DomainReset
 MCSpec == MCInit /\ [][MCNext]_mcvars
 
 \* a ZLP request yields PID + two CRC bytes
